@@ -1,9 +1,9 @@
 package chn
 
 import (
-	"os"
 	"context"
 	"fmt"
+	"os"
 	"strings"
 	"time"
 
